@@ -191,6 +191,19 @@ func genCluster(r *mrand.Rand, prop, tier string) simcore.Case {
 			}
 		}
 	}
+	if prop == "C01" || prop == "C15" || prop == "C16" {
+		// slow publication of the job snapshot (1 write in N): the asynchronous publication of
+		// a checkpoint is then still in flight when the next fault and redeployment happen.
+		// Drawn last so that every other part of the case is what it was without this fault kind.
+		cs.Cfg["stall_n"] = pick(0, 2, 4)
+	}
+	if prop == "C15" && r.IntN(3) == 0 {
+		// overlapping failures: a second worker dies around the moment the job notices the
+		// first death (heart-beat deadline), while the first one's replacement is still missing
+		t0, hb := faultTime(r, horizon), cs.Cfg["hb_s"]
+		cs.Ops = append(cs.Ops, simcore.Op{K: "kill-worker", A: []int64{t0, int64(r.IntN(3)), hb + 3 + int64(r.IntN(15)), 1}})
+		cs.Ops = append(cs.Ops, simcore.Op{K: "kill-worker", A: []int64{t0 + hb*1000 - 1500 + int64(r.IntN(4000)), int64(r.IntN(3)), 1 + int64(r.IntN(20)), 1}})
+	}
 	sort.SliceStable(cs.Ops, func(i, j int) bool { return cs.Ops[i].A[0] < cs.Ops[j].A[0] })
 	return cs
 }
@@ -238,6 +251,9 @@ func bodyCluster(c *sim.Ctx) {
 	binary.BigEndian.PutUint64(sd[:], uint64(c.Cfg("dataseed", 1)))
 	ksuid.SetRand(detRand{mrand.NewChaCha8(sd)})
 	disk := sim.NewDisk(c)
+	if n := c.Cfg("stall_n", 0); n > 0 {
+		disk.StallSuffix, disk.StallMax, disk.FaultRate["stall-write"] = ".snapshot", 30*time.Second, int(n)
+	}
 	installOpHooks(c, disk)
 	w := &cluWorld{c: c, prop: prop, disk: disk, net: newSimNet(c), workers: map[string]*simWorker{}, published: map[uint64]*snapshotpb.JobCheckpoint{}, allPublished: map[uint64]*snapshotpb.JobCheckpoint{},
 		streams: map[string][]streamItem{}, regs: map[string]map[string]bool{}, startCkpt: map[uint64]int{}, startedFor: map[uint64]map[string]bool{},
@@ -322,6 +338,15 @@ func bodyCluster(c *sim.Ctx) {
 				return
 			}
 			w.applyFault(op)
+		}
+		for { // the faults are over when every replacement has started
+			w.mu.Lock()
+			n := w.pendingRestarts
+			w.mu.Unlock()
+			if n == 0 || c.Violated() {
+				break
+			}
+			simrt.Sleep("chaos-drain", time.Second)
 		}
 	})
 
@@ -563,6 +588,23 @@ func (w *cluWorld) applyFault(op simcore.Op) {
 		w.disk.Kill("op-" + wk.opID)
 		w.net.kill(wk.host)
 		c.Fault("worker-killed")
+		if op.Arg(3) == 1 {
+			// overlapping failures: the replacement starts beside the fault plan, so the next
+			// fault can strike while this worker is still missing (job paused, waiting for resources)
+			c.Fault("worker-killed-overlapping")
+			w.mu.Lock()
+			w.pendingRestarts++
+			w.mu.Unlock()
+			c.Go("restart", func() {
+				simrt.SetGroup("chaos")
+				simrt.Sleep("restart-delay", time.Duration(op.Arg(2))*time.Second)
+				w.startWorker()
+				w.mu.Lock()
+				w.pendingRestarts--
+				w.mu.Unlock()
+			})
+			return
+		}
 		simrt.Sleep("restart-delay", time.Duration(op.Arg(2))*time.Second)
 		w.startWorker()
 	case "stop-worker": // graceful: the worker deregisters
